@@ -11,6 +11,7 @@ import (
 	"strings"
 	"sync"
 	"sync/atomic"
+	"syscall"
 	"testing"
 	"time"
 
@@ -50,6 +51,9 @@ type Case struct {
 	// Reacquire: the holder first acquires and releases the lock once with the same lock object, then acquires it again
 	// (the acquisition that is observed): a lock object is not a one-shot thing
 	Reacquire bool `json:"reacquire_with_same_object,omitempty"`
+	// ObsStatFailsEvery: every n-th stat of the heart-beat file by an observer fails with a transient I/O error (what a
+	// network share does now and then): not being able to read the age of a sign of life is no evidence of death
+	ObsStatFailsEvery int `json:"observer_stat_fails_every,omitempty"`
 }
 
 // beat is one heart-beat of the holder: start = its open was issued, end = its time stamp (chtimes) was completed;
@@ -248,12 +252,20 @@ func runCase(t ev.T, test string, c Case, confirmed bool) (suspectNoHeartBeat bo
 	var diedAt atomic.Int64
 	var armed atomic.Bool // death points count from the observed acquisition on
 	armed.Store(!c.Reacquire)
-	if c.DieAtOp > 0 {
+	if c.DieAtOp > 0 || c.ObsStatFailsEvery > 0 {
+		obsStats := map[string]int{} // (FaultAt runs under the backend's lock)
 		box.Backend.FaultAt = func(op *fsx.Op, _ int64) *fsx.Fault {
-			if op.Client == "holder" && diedAt.Load() == 0 && armed.Load() {
+			if c.DieAtOp > 0 && op.Client == "holder" && diedAt.Load() == 0 && armed.Load() {
 				if holderOps.Add(1) == int64(c.DieAtOp) {
 					diedAt.Store(time.Now().UnixNano())
 					return &fsx.Fault{Kind: "revoke"}
+				}
+			}
+			if c.ObsStatFailsEvery > 0 && strings.HasPrefix(op.Client, "obs") && op.Kind == "stat" && op.Path == w.hbPath {
+				obsStats[op.Client]++
+				if obsStats[op.Client]%c.ObsStatFailsEvery == 0 {
+					ev.Class("an observer's stat of the heart-beat file failed (injected)")
+					return &fsx.Fault{Kind: "error", Err: syscall.EIO}
 				}
 			}
 			return nil
@@ -581,6 +593,9 @@ func genCase(t *rapid.T) Case {
 		c.SlowWriteMs = rapid.SampledFrom([]int{10, 35, 45}).Draw(t, "slow-write-ms")
 	}
 	c.Reacquire = rapid.IntRange(0, 3).Draw(t, "reacquire") == 0
+	if rapid.IntRange(0, 4).Draw(t, "obs-stat-faults") == 0 {
+		c.ObsStatFailsEvery = rapid.SampledFrom([]int{1, 2, 3, 7, 20}).Draw(t, "obs-stat-fails-every")
+	}
 	switch rapid.IntRange(0, 3).Draw(t, "death") {
 	case 0:
 		c.DieAtOp = rapid.IntRange(1, 8).Draw(t, "die-at-op")
